@@ -78,16 +78,14 @@ theorem roundtrip_top (m : MRS) (hN : BaseIdsDistinct m) (hR : RolesOk m = true)
 /-! ## 2. "… converting that MRS to DMRS again gives the same nodes, top, index and set of links" -/
 
 /-
-FULL STATEMENT (not proved in this form):
-  BaseIdsDistinct m → RolesOk m → IVSorts m → RstrLinked m reps → (every scope that an argument or
-  the top selects has a representative, and every scope is held together by EQ and MOD/EQ links)
-  → the four equalities below.
-What is proved: the statement with the hypothesis `RepsAgree` — the representatives of the MRS
-that comes back sit at the same positions, scope by scope, as those of the source — in place of
-the last condition.  `RepsAgree` is decidable; the driver evaluates it on every generated case
-(it holds on all cases of the property's space without a starved group, i.e. outside finding F08).
-Missing for the full statement: invariance of `scope.descendants` / `scope.representatives` under
-the positional correspondence between `m` and `m2`.
+STATUS.  `second_conversion_stable_partial` below carries the decidable hypothesis `RepsAgree`
+(the representatives of the MRS that comes back sit at the same positions, scope by scope, as
+those of the source), which mentions `m2`.  It is discharged from hypotheses on `m` and its DMRS
+by `repsAgree_of_space`, giving `second_conversion_stable`; PropsSrc.lean then removes every
+hypothesis about a conversion: `second_conversion_stable_src` states the theorem from predicates
+of `m` and `scope.representatives(m)` alone and PROVES that the three conversions succeed
+(`roundtrip_total`, `second_conversion_total`).  Still open: the theorem without `NoDescArg`
+(see the comment before `second_conversion_stable`).
 -/
 
 /-- the representatives of two MRSs sit at the same positions, scope by scope. -/
@@ -185,15 +183,15 @@ The correspondence is positional: the predication at position `i` of `m` ↦ the
 of `m2` (`roundtrip_predications`), its intrinsic variable ↦ the intrinsic variable there, its
 label ↦ the label there, the hole of its qeq argument with role `r` ↦ the hole of the argument
 with role `r` there.  The theorems below state that this correspondence preserves arguments,
-handle constraints and label sharing.  Not done: packaging it as ONE bijection on variables
-between `strip m` and `m2` (it needs the two hypotheses of the next comment).
-
-FULL STATEMENT (not proved): `fromDmrs chosen (fromMrs m)` ≅ `strip m` by an explicit bijection of
-variables.  Missing hypotheses, both forced by the code: (a) every scope is held together by EQ
-and MOD/EQ links (no group of its members without a representative — otherwise the round trip
-splits the scope, finding F08), needed for "same label in `m` ⇒ same label in `m2`"; (b) every
-quantifier binds the intrinsic variable of the first representative of its restriction (otherwise
-the round trip rebinds it).  `roundtrip_labels` gives the converse direction of (a)
+handle constraints and label sharing.  They are packaged as ONE injective variable map between
+`strip m` and `m2` in PropsIso.lean (`roundtrip_iso`, on the class `InSpace`) and PropsSrc.lean
+(`roundtrip_iso_src`, hypotheses on the source alone, conversions proved to succeed).  The two
+hypotheses the packaging needs beyond the ones below, both forced by the code: (a) every scope is
+held together by EQ and MOD/EQ links (no group of its members without a representative —
+otherwise the round trip splits the scope, finding F08), needed for "same label in `m` ⇒ same
+label in `m2`"; (b) O1: every quantifier binds the intrinsic variable of the first representative
+of its restriction (otherwise the round trip rebinds it or `from_dmrs` raises KeyError;
+`roundtrip_iso_needs_O1`).  `roundtrip_labels` gives the converse direction of (a)
 unconditionally. -/
 
 /-- **Arguments, forward.**  A non-scopal argument `(r, v)` of the predication at `i`, `v` the
